@@ -923,7 +923,11 @@ func (p *context) compileInstrOrValue(b llssa.Builder, iv instrOrValue, asValue 
 			case *ssa.Const:
 				zero = true
 			case *ssa.UnOp:
-				addr = p.compileValue(b, n.X)
+				// only a load has an address to index from; the operand of a
+				// receive (<-ch)[i] is the channel
+				if n.Op == token.MUL {
+					addr = p.compileValue(b, n.X)
+				}
 			}
 			return
 		})
